@@ -283,3 +283,11 @@ def texts_of_ser(ser_box, out=None):
 
 def kind_count_ser(ser_box, kind):
     return (ser_box[0] == kind) + sum(kind_count_ser(k, kind) for k in ser_box[6])
+
+
+def text_nodes(node):
+    """The abstract TextBox nodes of a tree, in tree order (to let a generator rewrite their texts)."""
+    if node[0] == 'TextBox':
+        yield node
+    for k in node[6]:
+        yield from text_nodes(k)
